@@ -42,6 +42,13 @@ func runAPIHistory(key uint64, upto int) (steps []apiStep, final *run.Violation,
 	for i := 0; i < n; i++ {
 		steps = append(steps, m.step(g.next()))
 	}
+	if len(steps) > 0 && g.profile != "" {
+		tag := "profile:" + g.profile
+		if g.idx != nil {
+			tag += ":" + g.idx.kind
+		}
+		steps[0].tags = append(steps[0].tags, tag)
+	}
 	return steps, m.finalProbe(), g.malformed
 }
 
@@ -420,7 +427,10 @@ func init() {
 		Corpus: apiCorpus,
 		Rule: "histories of 1–25 driver calls over 1–2 databases × 1–2 collections on lungo.Open(MemoryStore): 35% reads, 45% writes, 10% index management, 5% drops, 5% expiry; " +
 			"arguments biased to stored _ids/field values/index names; ~10% malformed histories; every reply and the full catalog dump (documents in natural order, index definitions and members, oplog) " +
-			"after every call are compared with the stateful Lean model; monitors C02 (error/batch), C07, C08, C13 (find window), C19, C20 run on the implementation alone; " +
+			"after every call are compared with the stateful Lean model; monitors C02 (error/batch), C07 (pairwise key scan after every call; every uniqueness rejection of a write, batch item or index build " +
+			"is justified by a duplicate in the collection it would have produced), C08, C13 (find window), C15 (after every call, failed ones included: every index holds exactly the documents within its partial filter " +
+			"under all their key tuples, in key order, like an index rebuilt from scratch; index names = those created by successful calls), C19, C20 run on the implementation alone; " +
+			"~20% of the well-formed histories follow an index scenario (partial-filter moves, key shifts/swaps in one multi-update, unique build over duplicates, bulk with a failing model, multikey arity changes); " +
 			"non-trivial = a successful call that changed the state or returned/matched something",
 		Gen: func(r *gen.R, idx int) []run.Case {
 			return apiCases(r.U64())
